@@ -631,6 +631,25 @@ pub fn single_layer_entries() -> Vec<Entry> {
             w.sl("ReportGroupRecordV3Header.rest", p.1);
         })
     }));
+    // deprecated aliases (still public API): must behave exactly like the functions they forward to
+    macro_rules! alias {
+        ($name:expr, $t:ty) => {
+            #[allow(deprecated)]
+            v.push(e($name, |w, b| {
+                let r = <$t>::read_from_slice(b);
+                res!(w, $name, r, |p| {
+                    w.d($name, &p.0);
+                    w.sl(concat!($name, ".rest"), p.1);
+                })
+            }));
+        };
+    }
+    alias!("Ethernet2Header::read_from_slice", Ethernet2Header);
+    alias!("SingleVlanHeader::read_from_slice", SingleVlanHeader);
+    alias!("Ipv4Header::read_from_slice", Ipv4Header);
+    alias!("Ipv6Header::read_from_slice", Ipv6Header);
+    alias!("UdpHeader::read_from_slice", UdpHeader);
+    alias!("TcpHeader::read_from_slice", TcpHeader);
     v
 }
 
